@@ -14,8 +14,14 @@ use std::path::{Path, PathBuf};
 use std::sync::atomic::{AtomicU64, Ordering};
 use std::time::{Duration, Instant};
 
-pub const VERIF: &str = "/verif";
-pub const REPO: &str = "/repo";
+/// Roots. `/verif` and `/repo` unless overridden (AGV_VERIF / AGV_REPO) by the self-test tooling, which runs
+/// the same machinery on a scratch copy so that seeded changes never touch /repo itself.
+pub fn verif_root() -> String {
+    std::env::var("AGV_VERIF").unwrap_or_else(|_| "/verif".to_string())
+}
+pub fn repo_root() -> String {
+    std::env::var("AGV_REPO").unwrap_or_else(|_| "/repo".to_string())
+}
 
 // ------------------------------------------------------------------------------------------
 // PRNG (SplitMix64)
@@ -339,7 +345,7 @@ impl Ctx {
         }
     }
     fn replay_path(&self, kind: &str) -> PathBuf {
-        let dir = Path::new(VERIF).join("replays");
+        let dir = Path::new(&verif_root()).join("replays");
         let _ = std::fs::create_dir_all(&dir);
         let k: String = kind.chars().map(|c| if c.is_ascii_alphanumeric() { c } else { '_' }).take(40).collect();
         dir.join(format!("{}_{}_{}_{}_{}_{}.json", self.id, self.profile, self.cur_stream.replace('/', "_"), self.cur_case, k, self.violations.len()))
@@ -397,7 +403,7 @@ pub struct KnownFinding {
     pub text: String,
 }
 pub fn load_known(id: &str) -> Vec<KnownFinding> {
-    let path = Path::new(VERIF).join("KNOWN_FINDINGS.txt");
+    let path = Path::new(&verif_root()).join("KNOWN_FINDINGS.txt");
     let Ok(s) = std::fs::read_to_string(path) else { return Vec::new() };
     let mut out = Vec::new();
     for line in s.lines() {
@@ -530,10 +536,10 @@ fn write_child_result(ctx: &Ctx, out: &Path) {
 // ------------------------------------------------------------------------------------------
 // Driver side
 pub fn bin_for(profile: &str) -> PathBuf {
-    Path::new(VERIF).join("target").join(profile).join("agv")
+    Path::new(&verif_root()).join("target").join(profile).join("agv")
 }
 pub fn tmp_dir(id: &str) -> PathBuf {
-    let d = Path::new(VERIF).join("target").join("tmp").join(id);
+    let d = Path::new(&verif_root()).join("target").join("tmp").join(id);
     let _ = std::fs::create_dir_all(&d);
     d
 }
@@ -832,7 +838,7 @@ fn write_evidence(prop: &Prop, m: &Ctx, profiles: &[&str], nshards: usize, disti
         "wall_s": (wall * 100.0).round() / 100.0,
         "violations": m.n_violations,
     });
-    let dir = Path::new(VERIF).join("evidence");
+    let dir = Path::new(&verif_root()).join("evidence");
     let _ = std::fs::create_dir_all(&dir);
     std::fs::write(dir.join(format!("{}.json", prop.id)), serde_json::to_string_pretty(&ev).unwrap() + "\n").unwrap();
 }
